@@ -199,3 +199,44 @@ def run_matrix(b, jobs, workroot, workers=16):
         return tag, run_tool(b, tool, data, workroot, timeout=timeout, args=args)
     with ThreadPoolExecutor(max_workers=workers) as ex:
         return list(ex.map(one, jobs))
+
+
+def run_valgrind(b, tool, data, workroot, timeout=300, args=()):
+    """one run of the plain (uninstrumented) build under valgrind memcheck: uninitialised reads, which ASan does not see.
+    Returns {tool, rc, cls, sig, err}: cls = "valgrind" when memcheck reported, else accept / reject / signal / timeout."""
+    d = tempfile.mkdtemp(prefix="v-", dir=workroot)
+    path = os.path.join(d, "in.exp")
+    out_d = os.path.join(d, "out")
+    os.mkdir(out_d)
+    with open(path, "wb") as fh:
+        fh.write(data)
+    env = b.env()
+    env["LC_ALL"] = "C"
+    cmd = ["valgrind", "-q", "--error-exitcode=97", "--track-origins=yes", "--num-callers=12", b.tool(tool)] + list(args) + [path]
+    t0 = time.time()
+    try:
+        p = subprocess.run(cmd, cwd=out_d, env=env, stdin=subprocess.DEVNULL, stdout=subprocess.DEVNULL, stderr=subprocess.PIPE, timeout=timeout)
+        rc, err = p.returncode, p.stderr.decode("latin-1")
+    except subprocess.TimeoutExpired:
+        rc, err = None, ""
+    shutil.rmtree(d, ignore_errors=True)
+    res = {"tool": tool, "rc": rc, "wall": round(time.time() - t0, 2), "err": err[-3000:], "args": list(args), "diag": ""}
+    rep = [l for l in err.split("\n") if l.startswith("==")]
+    if rc is None:
+        res.update(cls="timeout", sig=f"valgrind timeout>{timeout}s")
+    elif rc == 97 or rep:
+        kind = next((re.sub(r"^==\d+== ", "", l) for l in rep if not l.strip().endswith("==")), "report")
+        frames = []
+        for l in rep:
+            m = re.search(r"(?:at|by) 0x[0-9A-F]+: (\S+) \((\S+?):\d+\)", l)
+            if m and not m.group(2).startswith(("vg_", "malloc", "str", "mem")) and m.group(1) not in frames:
+                frames.append(m.group(1))
+            if len(frames) >= 2:
+                break
+        res.update(cls="valgrind", sig="valgrind:" + re.sub(r"\s+", "_", re.sub(r"\d+", "N", kind))[:60] + "@" + "<".join(frames), err="\n".join(rep[:40]))
+    elif rc < 0 or rc >= 128:
+        res.update(cls="signal", sig=f"signal under valgrind rc={rc}")
+    else:
+        res.update(cls="accept" if rc == 0 else "reject", sig="")
+    return res
+
